@@ -26,15 +26,15 @@ from ..refmodel import RefOOC, RefReject, RefVal, canon_bag, ref_apply
 
 RULE = (
     "all ordered pairs (existing, new) over the listed operation shapes (calculations incl. tags hidden by projections, "
-    "projections incl. calculated tags, selections, deduplication, sorts, slices, partial joins with and without "
-    "predicate and on either side) on schema {a,b,c}; the real new.commute(existing.apply(leaf)) is called once per "
+    "projections incl. calculated and non-key tags, selections, deduplication, sorts, slices, partial joins with and "
+    "without predicate and on either side) on schema {a,b,c key; n non-key, determined by a}; the real new.commute(existing.apply(leaf)) is called once per "
     "pair and the returned UnaryCommutator is interpreted by the reference on ALL row lists of length <= 3 over the "
     "2x2x2 value cube (585 targets, all orders, duplicates) plus two rich lists; non-trivial = the commutator reports a "
     "full or partial move; distinct = distinct pairs"
 )
 
-ABC = ("a", "b", "c")
-CUBE = [(i, j, k) for i in (0, 1) for j in (0, 1) for k in (0, 1)]
+ABC = ("a", "b", "c", "n")  # n is a non-key column determined by the key a (n = 10*a)
+CUBE = [(i, j, k, 10 * i) for i in (0, 1) for j in (0, 1) for k in (0, 1)]
 FIXED_ROWS = ((0, 5), (1, 6), (1, 7))
 FIXED2_ROWS = ((0, 8), (1, 9))  # partner {a, c}: c collides with a target column a projection can hide
 
@@ -51,6 +51,12 @@ OPS = [
     ("proj", ("a", "x")),
     ("proj", ("b", "x")),
     ("proj", ("a", "b", "c")),
+    ("proj", ("a", "n")),
+    ("proj", ("n",)),
+    ("proj", ("a", "b", "c", "n")),
+    ("sort", ((R("n"), False), (R("b"), True))),
+    ("sel", ("gt", R("n"), L(5))),
+    ("calc", "y", ("add", R("n"), R("b"))),
     ("sel", ("gt", R("a"), L(0))),
     ("sel", ("eq", R("b"), R("c"))),
     ("sel", ("lt", R("x"), L(0))),
@@ -87,8 +93,8 @@ def world(rows):
 
 def targets():
     ts = [t for n in range(0, 4) for t in itertools.product(CUBE, repeat=n)]
-    ts.append(((1, 0, 1), (0, 1, 0), (1, 0, 1), (0, 0, 0), (1, 1, 0), (0, 1, 1)))
-    ts.append(((1, 1, 1), (1, 1, 0), (0, 1, 1), (1, 1, 1), (0, 0, 1)))
+    ts.append(tuple(r + (10 * r[0],) for r in ((1, 0, 1), (0, 1, 0), (1, 0, 1), (0, 0, 0), (1, 1, 0), (0, 1, 1))))
+    ts.append(tuple(r + (10 * r[0],) for r in ((1, 1, 1), (1, 1, 0), (0, 1, 1), (1, 1, 1), (0, 0, 1))))
     return ts
 
 
